@@ -94,8 +94,9 @@ func c16Run(c c16Case, m Mode) (obs []c16Obs, final parser.ContextType, finalInF
 			if at[k] && c.NestedSrc != "" {
 				level++
 				np := pb.Build(c.NestedSrc)
+				nd0 := np.VerifContextDepth()
 				np.ParseProgram()
-				if np.CurrentContext() != parser.GlobalContext || np.IsInFunction() || np.VerifContextDepth() != 1 {
+				if np.CurrentContext() != parser.GlobalContext || np.IsInFunction() || np.VerifContextDepth() != nd0 {
 					nestedBad = fmt.Sprintf("nested parser after ParseProgram: CurrentContext()=%d IsInFunction()=%v depth=%d", np.CurrentContext(), np.IsInFunction(), np.VerifContextDepth())
 				}
 				level--
@@ -154,8 +155,11 @@ func c16Run(c c16Case, m Mode) (obs []c16Obs, final parser.ContextType, finalInF
 			return next()
 		})
 		p := pb.Build(src)
+		depth0 := p.VerifContextDepth()
 		p.ParseProgram()
-		final, finalInFn, depth = p.CurrentContext(), p.IsInFunction(), p.VerifContextDepth()
+		// the stack must be back where a fresh parser has it (how top level is
+		// represented - a sentinel entry or an empty stack - is the parser's business)
+		final, finalInFn, depth = p.CurrentContext(), p.IsInFunction(), p.VerifContextDepth()-depth0+1
 	}()
 	select {
 	case <-done:
@@ -180,7 +184,7 @@ func c16Check(c c16Case, rec *evid.Recorder) *Fail {
 			return failf("parse panicked (mode %+v): %v\nsrc %q", m, pv, c.Src).tag("sut-panic")
 		}
 		if final != parser.GlobalContext || finalInFn || depth != 1 {
-			return failf("after ParseProgram (mode %+v): CurrentContext()=%d IsInFunction()=%v context depth=%d; want global / false / 1\nsrc %q", m, final, finalInFn, depth, c.Src)
+			return failf("after ParseProgram (mode %+v): CurrentContext()=%d IsInFunction()=%v context depth (relative to a fresh parser, 1 = unchanged)=%d; want global / false / 1\nsrc %q", m, final, finalInFn, depth, c.Src)
 		}
 		if nestedBad != "" {
 			return failf("%s\nnested src %q\nouter src %q", nestedBad, c.NestedSrc, c.Src)
